@@ -3,6 +3,7 @@ Functionality to synchronise properties
 """
 
 import ast
+from copy import deepcopy
 from os import path
 
 from doctrans import emit
@@ -129,7 +130,13 @@ def sync_property(
     else:
         annotate_ancestry(input_ast)
         assert isinstance(input_ast, ast.Module)
-        replacement_node = find_in_ast(list(strip_split(input_param, ".")), input_ast)
+        # Work on a copy: the input tree must stay as it is for the next pair (wrapping edits the annotation), and the
+        # location the node has in the input file means nothing in the output file
+        replacement_node = deepcopy(
+            find_in_ast(list(strip_split(input_param, ".")), input_ast)
+        )
+        if hasattr(replacement_node, "_location"):
+            del replacement_node._location
 
     assert replacement_node is not None
     if output_param_wrap is not None:
